@@ -121,7 +121,8 @@ def runModel (flavour : String) (chunks : List Bytes) (term : Term) (extra : Nat
   let fuel := chunks.flatten.length + 2 + extra
   -- upper-case flavours = the same session with requests sent between the receive calls; `c` = the
   -- async session with every pending receive future dropped: both must not change the results
-  if flavour == "s" || flavour == "S" then sessionS fuel extra .initial { cap := DEFAULT_CAP, data := [] } chunks term
+  -- `M` / `N`: every call made through `command()` / `command_list()` on the blocking / async connection
+  if flavour == "s" || flavour == "S" || flavour == "M" then sessionS fuel extra .initial { cap := DEFAULT_CAP, data := [] } chunks term
   else sessionA fuel extra .initial [] chunks term
 
 /-- whole-stream reference (`decodeAll`): everything in one chunk -/
